@@ -102,6 +102,7 @@ type fnTrans struct {
 	tupleVals map[ssa.Value][]Term
 	paramTV map[string]TV
 	userCallback bool
+	anchors map[ssa.Instruction]string
 	resultNames []string
 }
 
@@ -224,7 +225,7 @@ func (f *fnTrans) rangeFact(t Term, typ types.Type) Term {
 		case *types.Pointer, *types.Map, *types.Signature, *types.Chan:
 			return And(Ge(t, IntLit(0)), Le(App("root", SInt, t), f.heap("G$allocTop")), f.typeInv(t, typ))
 		case *types.Interface:
-			return Ge(t, IntLit(0))
+			return And(Ge(t, IntLit(0)), Le(App("root", SInt, t), f.heap("G$allocTop")))
 		}
 	}
 	if t.Sort == SSlice {
@@ -865,6 +866,7 @@ func TranslateFn(w *World, fn *ssa.Function) *FnVC {
 		}
 	}
 	f.analyzeLoops()
+	f.computeAnchors()
 
 	// entry state
 	f.cur = NewState()
@@ -926,6 +928,9 @@ func TranslateFn(w *World, fn *ssa.Function) *FnVC {
 func contractProps(c *Contract) []string {
 	set := map[string]bool{}
 	for _, p := range c.ProtectProps {
+		set[p] = true
+	}
+	for _, p := range c.ExtraProps {
 		set[p] = true
 	}
 	for _, cls := range c.At {
@@ -1328,4 +1333,70 @@ func (f *fnTrans) typeInv(t Term, typ types.Type) Term {
 		out = append(out, Implies(Ne(t, IntLit(0)), b))
 	}
 	return And(out...)
+}
+
+// computeAnchors names the instructions positional lemmas can attach to:
+// call:<callee>#k, store:<T>.<field>#k, mapupdate#k, lookup#k (k-th in block order).
+func (f *fnTrans) computeAnchors() {
+	f.anchors = map[ssa.Instruction]string{}
+	n := map[string]int{}
+	put := func(ins ssa.Instruction, base string) {
+		f.anchors[ins] = fmt.Sprintf("%s#%d", base, n[base])
+		n[base]++
+	}
+	for _, b := range f.fn.Blocks {
+		for _, ins := range b.Instrs {
+			switch x := ins.(type) {
+			case ssa.CallInstruction:
+				name, _ := f.w.calleeName(x.Common())
+				if name == "" {
+					name = "funcvalue"
+				}
+				put(ins, "call:"+name)
+			case *ssa.Store:
+				if fa, ok := x.Addr.(*ssa.FieldAddr); ok {
+					if st, key, local := f.w.localStruct(deref(fa.X.Type())); st != nil && local {
+						put(ins, "store:"+key+"."+st.Field(fa.Field).Name())
+					}
+				}
+			case *ssa.MapUpdate:
+				put(ins, "mapupdate")
+			case *ssa.Lookup:
+				if _, ok := x.X.Type().Underlying().(*types.Map); ok {
+					put(ins, "lookup")
+				}
+			}
+		}
+	}
+}
+
+// atAnchor discharges/assumes the positional clauses attached to an instruction.
+func (f *fnTrans) atAnchor(ins ssa.Instruction) {
+	if f.c == nil || f.c.At == nil {
+		return
+	}
+	a, ok := f.anchors[ins]
+	if !ok {
+		return
+	}
+	cls := f.c.At[a]
+	if len(cls) == 0 {
+		return
+	}
+	env := f.env(f.curB, f.cur, nil)
+	for k, cl := range cls {
+		t, err := env.EvalBool(cl.Expr)
+		if err != nil {
+			f.unsupported("%s: at %s: %v", cl.Line, a, err)
+			continue
+		}
+		if cl.Kind == "assume" {
+			f.factHere(t)
+			f.noteAssumed(fmt.Sprintf("assume at %s in %s: %s", a, f.name, cl.Src))
+			continue
+		}
+		o := f.oblige("lemma", fmt.Sprintf("at %s: %s", a, cl.Src), ins.Pos(), f.propsOf(cl), f.here(), t)
+		o.Name = fmt.Sprintf("%s/at:%s/lemma%d", f.name, a, k)
+		f.factOb(f.here(), t)
+	}
 }
